@@ -303,9 +303,20 @@ pub fn wrap_zip(out: &mut Vec<u8>, o: &ZipOpts, stream: &[u8], plain: &[u8], m: 
         rec.extend_from_slice(&extra);
         extra = rec;
     }
-    let flag: u16 = if o.data_descriptor { 8 } else { 0 };
+    // general purpose flags: bit 3 follows the layout; bits 1-2 (compression option) and bit 11
+    // (language encoding: names are UTF-8) are free for a method-8 member and are set whatever the
+    // name bytes are (archivers that set bit 11 unconditionally, names cut at a length limit).
+    // Bit 0 / 6 / 13 (encryption) are never set: such a member's data is not a DEFLATE stream.
+    let mut flag: u16 = if o.data_descriptor { 8 } else { 0 };
+    if m.chance(40) {
+        flag |= 0x0800;
+    }
+    if m.chance(25) {
+        flag |= (m.below(4) as u16) << 1;
+    }
+    let version: u16 = [20u16, 20, 10, 45, 63, 0x0314][m.below(6)];
     out.extend_from_slice(&0x04034b50u32.to_le_bytes());
-    out.extend_from_slice(&20u16.to_le_bytes());
+    out.extend_from_slice(&version.to_le_bytes());
     out.extend_from_slice(&flag.to_le_bytes());
     out.extend_from_slice(&o.method.to_le_bytes());
     out.extend_from_slice(&[m.u8(), m.u8(), m.u8(), m.u8()]); // time/date
